@@ -135,6 +135,8 @@ def check_proof_bytes(prop, tier, repo, verif):
         if not mm:
             continue
         kind, off, bit, detail = mm.group(1), int(mm.group(2)), mm.group(3), mm.group(4)
+        if prop == 'C19' and kind == 'accepted':
+            continue        # C19 is about decoding (no panic, re-encodable); acceptance of altered proofs is C02
         where = 'offset-%d' % off if off < n // 2 else 'offset-from-end-%d' % (n - off)
         slug = re.sub(r'[^a-z0-9]+', '-', detail.lower()).strip('-')[:48]
         ob = '%s/bounded/proof_bytes#%s:%s:%s' % (prop, kind, where, slug)
